@@ -7,16 +7,18 @@ import itertools
 import numpy as np
 
 
-def qp_active_set(H: np.ndarray, u: np.ndarray, tol: float = 1e-9):
-    """argmin v^T H v  s.t. v >= u, H symmetric positive definite, by enumerating active sets.
+def qp_active_set(H: np.ndarray, u: np.ndarray):
+    """argmin v^T H v  s.t. v >= u, H symmetric positive definite, by enumerating all 2^m active sets.
 
-    Returns (v, active_mask). The KKT point is unique; among numerically admissible candidates the
-    one with the smallest objective is returned.
+    For every active set A the equality-constrained minimiser is computed (v_A = u_A, H_FF v_F = -H_FA u_A)
+    and its KKT violation is measured in units of v: primal (u_i - v_i)+ on the free coordinates, dual
+    (-lambda_i / H_ii)+ on the active ones (lambda = H v). The unique solution has violation 0; the candidate with
+    the smallest violation is returned as (v, active_mask, violation).
     """
     m = len(u)
     best = None
     idx = np.arange(m)
-    scale = max(1.0, float(np.abs(u).max(initial=0.0)))
+    diag = np.diag(H)
     for mask_bits in range(1 << m):
         act = np.array([(mask_bits >> i) & 1 for i in range(m)], dtype=bool)
         v = np.where(act, u, 0.0).astype(float)
@@ -27,17 +29,18 @@ def qp_active_set(H: np.ndarray, u: np.ndarray, tol: float = 1e-9):
                 v[fr] = np.linalg.solve(H[np.ix_(fr, fr)], rhs)
             except np.linalg.LinAlgError:
                 continue
-        if (v < u - tol * scale).any():
+        if not np.isfinite(v).all():
             continue
+        viol = float(np.max(np.where(act, 0.0, u - v), initial=0.0))
         lam = H @ v
-        if (lam[act] < -tol * scale * max(1.0, np.abs(H).max())).any():
-            continue
+        viol = max(viol, float(np.max(np.where(act, -lam / diag, 0.0), initial=0.0)))
+        viol = max(viol, 0.0)
         obj = float(v @ H @ v)
-        if best is None or obj < best[0]:
-            best = (obj, v, act)
+        if best is None or (viol, obj) < (best[0], best[1]):
+            best = (viol, obj, v, act)
     if best is None:
         raise ArithmeticError("no KKT point found")
-    return best[1], best[2]
+    return best[2], best[3], best[0]
 
 
 def min_norm_hull(G: np.ndarray):
